@@ -21,6 +21,7 @@ import (
 	"github.com/tencent/goom/verifsim/simenv"
 	"github.com/tencent/goom/verifsim/world"
 
+	_ "github.com/tencent/goom/verifsim/worlds/concw"
 	_ "github.com/tencent/goom/verifsim/worlds/hist"
 	_ "github.com/tencent/goom/verifsim/worlds/ifacew"
 	_ "github.com/tencent/goom/verifsim/worlds/stubw"
